@@ -6,6 +6,8 @@ CONSTANTS
   Entries <- MCEntries
   Random <- MCRandom
   Seedable <- MCSeedRand
+  Backends <- MCBackends
+  InitBackend = "core"
   Objs <- MCObjs
   ObjSeed <- MCObjSeed
   ObjEntries <- MCSeedRand
@@ -14,3 +16,4 @@ CONSTANTS
 INVARIANT NoWitnessInt
 INVARIANT NoWitnessTwins
 INVARIANT NoWitnessObj
+INVARIANT NoWitnessSwitch
